@@ -254,11 +254,11 @@ Lemma gstep_inv g m o :
   exists m', mon_run m (fst (gstep g o)) = Some m' /\ srv_inv (g_srv (snd (gstep g o))) m'.
 Proof.
   intros Hwf Hinv. unfold gstep. destruct (s_dead (g_srv g)).
-  { destruct o as [id|n| |id|pid]; try (exists m; split; [reflexivity|exact Hinv]).
+  { destruct o as [id|n| |id|pid|id]; try (exists m; split; [reflexivity|exact Hinv]).
     destruct (s_err (g_srv g)) as [e|]; [|exists m; split; [reflexivity|exact Hinv]].
     assert (Eg : shutdown_error_guard = true) by reflexivity. rewrite Eg.
     exists m. split; [reflexivity|exact Hinv]. }
-  destruct o as [id|n| |id|pid]; cbn [wf_gop] in Hwf.
+  destruct o as [id|n| |id|pid|id]; cbn [wf_gop] in Hwf.
   - (* Arrive *)
     cbn [fst snd g_srv mon_run mon_step]. eexists. split; [reflexivity|].
     destruct Hinv as [Hw Hq Ht Hlt Hlast Hinq].
@@ -283,6 +283,8 @@ Proof.
   - (* PeerGoaway *)
     cbn [fst snd g_srv mon_run mon_step]. exists m. split; [reflexivity|].
     destruct Hinv as [Hw Hq Ht Hlt Hlast Hinq]. split; cbn [with_ctl s_sent s_inq s_last]; assumption.
+  - (* Serve *)
+    exists m. split; [reflexivity|exact Hinv].
 Qed.
 
 Lemma grun_inv h : forall g m,
